@@ -89,7 +89,13 @@ fn case_strategy(depth: u32, size: u32) -> BoxedStrategy<Case> {
                         ItemSpec::List(v) => ItemSpec::List(v.iter().map(|x| go(x, salt, k)).collect()),
                         ItemSpec::Float(f) => {
                             *k = k.wrapping_add(1);
-                            ItemSpec::Float(*f + 0.0001 * (((salt.wrapping_add(*k)) % 4) as f32))
+                            // every fifth float becomes a zero of either sign: numerically equal
+                            // zeros are one and the same point for the structural instructions
+                            match (salt.wrapping_add(*k)) % 10 {
+                                8 => ItemSpec::Float(0.0),
+                                9 => ItemSpec::Float(-0.0),
+                                r => ItemSpec::Float(*f + 0.0001 * ((r % 4) as f32)),
+                            }
                         }
                         x => x.clone(),
                     }
